@@ -47,10 +47,11 @@ type parkEntry struct {
 
 // Ctl is the controller of one run. It lives inside the bubble.
 type Ctl struct {
-	T     *Tape
-	Sched *Stream
-	Prop  string
-	Tier  string
+	digestStop int // StopDigest: 1 + the first step the digest no longer covers (0 = covers everything)
+	T          *Tape
+	Sched      *Stream
+	Prop       string
+	Tier       string
 
 	mu      sync.Mutex
 	parked  []*parkEntry
@@ -478,14 +479,45 @@ func (c *Ctl) Fingerprint() string {
 	return fmt.Sprintf("%016x", c.fp.Sum64())
 }
 
-// Digest of the full normalised event log.
+// StopDigest ends the part of the event log that the determinism digest
+// covers. For the rare situation in which the code under test (or the
+// standard library below it) races with itself inside one step in a way the
+// simulator cannot take over; the reason goes into the log. Oracles keep
+// judging the whole run.
+func (c *Ctl) StopDigest(reason string) {
+	c.mu.Lock()
+	first := c.digestStop == 0
+	if first {
+		// the digest covers the steps before the current one (what else happens in this
+		// step is already part of the race)
+		c.digestStop = c.Step + 1
+	}
+	c.mu.Unlock()
+	if first {
+		c.Logf("digest stopped before this step: %s", reason)
+	}
+}
+
+// Digest of the normalised event log (up to StopDigest, if that was called).
 func (c *Ctl) Digest() string {
 	h := sha256.New()
 	c.mu.Lock()
 	// lines written by different goroutines within one step have no defined
 	// order: the digest is taken over each step's lines sorted
 	lines := append([]string(nil), c.Log...)
+	stop := c.digestStop
 	c.mu.Unlock()
+	if stop > 0 {
+		var kept []string
+		for _, l := range lines {
+			var st int
+			if _, err := fmt.Sscanf(l, "%d@", &st); err == nil && st >= stop-1 {
+				break
+			}
+			kept = append(kept, l)
+		}
+		lines = kept
+	}
 	stepOf := func(l string) string {
 		i := strings.IndexAny(l, "@ ")
 		if i < 0 {
